@@ -1,6 +1,7 @@
 import Gv.Oracle.Common
 import Gv.Model.SW
 import Gv.Spec.SW
+import Gv.Spec.Matrices
 /-!
 Oracle handler for C09 (`sw` op, see `tools/harness/ops_sw.go` for the wire format).
 
@@ -52,9 +53,10 @@ def specScheme (mode : String) (den mt mm gopen gext : Int) (s1 s2 : Seq) : Opti
   if mode == "mm" then
     some ⟨fun a b => if a == b then mt else mm, gopen, gext⟩
   else if allIn (keysOf Gen.dna_to_matrix_pos) s1 && allIn (keysOf Gen.dna_to_matrix_pos) s2 then
-    some ⟨matrixSub den Gen.dna_to_matrix_pos Gen.dnafull_subst_matrix, gopen, gext⟩
+    -- the reference scores with the matrices AS PUBLISHED (`Spec/Matrices.lean`), not with the regenerated tables
+    some ⟨fun a b => den * (Spec.Matrices.dnaScore a b).getD 0, gopen, gext⟩
   else if allIn (keysOf Gen.prot_to_matrix_pos) s1 && allIn (keysOf Gen.prot_to_matrix_pos) s2 then
-    some ⟨matrixSub den Gen.prot_to_matrix_pos Gen.blosum62_subst_matrix, gopen, gext⟩
+    some ⟨fun a b => den * (Spec.Matrices.protScore a b).getD 0, gopen, gext⟩
   else none
 
 def sub (s : Seq) (a b : Int) : Option Seq :=
